@@ -631,6 +631,14 @@ impl<Controller: SourceController> NtpSource<Controller> {
             // to denial of service attacks.
             debug!("Received old/unexpected packet from source");
             actions!()
+        } else if message.is_kiss_ntsn() {
+            // This must be checked before any other KISS code: an NTS NAK is the
+            // only response we accept without authentication, and in NTPv5 the NAK
+            // flag can be combined with the poll values that signal RATE and DENY.
+            warn!("Received nts not-acknowledge");
+            // as these can be easily faked, we dont immediately give up on receiving
+            // a response.
+            actions!()
         } else if message.is_kiss_rate(self.last_poll_interval) {
             // KISS packets may not have correct timestamps at all, handle them anyway
             self.remote_min_poll_interval = Ord::max(
@@ -650,11 +658,6 @@ impl<Controller: SourceController> NtpSource<Controller> {
                 self.have_deny_rstr_response = true;
                 actions!()
             }
-        } else if message.is_kiss_ntsn() {
-            warn!("Received nts not-acknowledge");
-            // as these can be easily faked, we dont immediately give up on receiving
-            // a response.
-            actions!()
         } else if message.is_kiss() {
             warn!("Unrecognized KISS Message from source");
             // Ignore unrecognized control messages
